@@ -749,6 +749,45 @@ def failure_kinds(case):
     return sorted({f[0] for f in r["fails"]})
 
 
+# ============================================================================ workers
+_FINDINGS = None
+
+
+def attribute_classes(c, r):
+    """{failure class: id of the open finding it is attributed to | None}, decided by the trigger predicates"""
+    global _FINDINGS
+    import types
+    if _FINDINGS is None:
+        _FINDINGS = types.SimpleNamespace(prop="C18", findings=vlib.load_findings("C18"))
+    out = {}
+    for k in sorted({f[0] for f in r.get("fails", [])}):
+        out[k] = vlib.Ctx.attribute(_FINDINGS, {"kind": k, "case": c})
+    return out
+
+
+def work(c):
+    r = run_case(c)
+    if "skip" not in r:
+        r["attrib"] = attribute_classes(c, r)
+        r.pop("before_text", None)
+        r.pop("after_text", None)
+    return r
+
+
+def _init_worker(parent_tmp):
+    import tempfile
+    mp._TMP = tempfile.mkdtemp(prefix="w_", dir=parent_tmp)      # removed with the parent's directory
+    warnings.simplefilter("ignore")
+
+
+def run_all(cases, procs):
+    if procs <= 1 or len(cases) < 40:
+        return [work(c) for c in cases]
+    import multiprocessing
+    with multiprocessing.get_context("fork").Pool(procs, _init_worker, (mp.tmpdir(),)) as pool:
+        return pool.map(work, cases, chunksize=25)
+
+
 # ============================================================================ replay / run
 def load_case(path, with_kind=False):
     with open(path) as fh:
@@ -802,7 +841,8 @@ def corpus_cases():
 
 
 def run(ctx):
-    n_cases = 450 if ctx.tier == "quick" else 25000
+    n_cases = 900 if ctx.tier == "quick" else 16000
+    procs = 3 if ctx.tier == "quick" else 4
     ctx.prove()
     ok, log = vlib.coq_make(["Model/Dedup.vo"])
     if not ok:
@@ -818,8 +858,7 @@ def run(ctx):
             "cell_surfaces_emptied": 0, "oracle_failure_kinds": {}, "cells_repointed": 0,
             "surviving_shared_by_2plus_cells": 0}
     results = []
-    for c in cases:
-        r = run_case(c)
+    for c, r in zip(cases, run_all(cases, procs)):
         dist["cases"] += 1
         if "skip" in r:
             dist["skipped"][r["skip"]] = dist["skipped"].get(r["skip"], 0) + 1
@@ -874,7 +913,7 @@ def run(ctx):
         for k in sorted(classes):
             dist["oracle_failure_kinds"][k] = dist["oracle_failure_kinds"].get(k, 0) + 1
             rec = {"kind": k, "case": c, "detail": [str(d)[:400] for d in classes[k][:3]]}
-            fid = ctx.attribute(rec)
+            fid = r["attrib"].get(k)
             if fid:
                 ctx.filtered[fid] = ctx.filtered.get(fid, 0) + 1
                 continue
